@@ -95,6 +95,45 @@ func c01Menu(thorough bool) func(h *hist.Hist, depth int) []hist.Event {
 	}
 }
 
+// ---- tag scenario: two recordings of one tag under a threshold-2 rule ----
+
+func c01TagWorld(ms *memstore.Store) *hist.World {
+	w := c01World(ms)
+	w.AddTag(ms, "tagA", "v1", "c1", "P0")
+	w.AddTag(ms, "tagU", "v1", "c1", "U")
+	return w
+}
+
+func c01TagPolicies() []*hist.PolicySpec {
+	tags := func(ps []string, thr int) hist.RuleSpec {
+		return hist.RuleSpec{Name: "protect-tags", Patterns: []string{"git:refs/tags/*"}, Principals: ps, Threshold: thr}
+	}
+	return []*hist.PolicySpec{
+		stdPolicy("tags:P0P1/2", map[string]hist.FileSpec{"targets": {Rules: []hist.RuleSpec{mainRule([]string{"P0"}, 1), tags([]string{"P0", "P1"}, 2)}}}),
+		stdPolicy("tags:P0P1/1", map[string]hist.FileSpec{"targets": {Rules: []hist.RuleSpec{mainRule([]string{"P0"}, 1), tags([]string{"P0", "P1"}, 1)}}}),
+	}
+}
+
+func c01TagMenu(h *hist.Hist, depth int) []hist.Event {
+	evs := []hist.Event{}
+	for _, s := range []string{"P0", "P1", "U", ""} {
+		evs = append(evs, hist.Event{Kind: "push", Ref: refTag, Commit: "tagA", Signer: s})
+	}
+	evs = append(evs,
+		hist.Event{Kind: "push", Ref: refTag, Commit: "tagU", Signer: "P0"},
+		hist.Event{Kind: "approve", Ref: refTag, Commit: "tagA", Signers: []string{"P1"}},
+		hist.Event{Kind: "approve", Ref: refTag, Commit: "tagA", Signers: []string{"P0"}},
+		hist.Event{Kind: "approve", Ref: refTag, Commit: "tagA", Signers: []string{"U"}},
+		hist.Event{Kind: "policy", Policy: 0}, hist.Event{Kind: "policy", Policy: 1},
+	)
+	for i, e := range h.A.Entries {
+		if e.Kind == refver.Push && e.Ref == refTag {
+			evs = append(evs, hist.Event{Kind: "annotate", Names: []int{i}, Skip: true})
+		}
+	}
+	return evs
+}
+
 func c01Scenarios(thorough bool) []*e1Scenario {
 	depth := 3
 	if thorough {
@@ -105,7 +144,13 @@ func c01Scenarios(thorough bool) []*e1Scenario {
 		Menu:   c01Menu(thorough), Depth: depth, Refs: []string{refMain, refFeat}}
 	noPolicy := &e1Scenario{Name: "C01/no-initial-policy", World: c01World, Policies: c01Policies(),
 		Prefix: nil, Menu: c01Menu(thorough), Depth: depth, Refs: []string{refMain, refFeat}}
-	return []*e1Scenario{base, noPolicy}
+	tagDepth := 4
+	if thorough {
+		tagDepth = 5
+	}
+	tags := &e1Scenario{Name: "C01/tags", World: c01TagWorld, Policies: c01TagPolicies(),
+		Prefix: []hist.Event{{Kind: "policy", Policy: 0}}, Menu: c01TagMenu, Depth: tagDepth, Refs: []string{refTag}}
+	return []*e1Scenario{base, noPolicy, tags}
 }
 
 func TestC01(t *testing.T) {
